@@ -35,8 +35,11 @@ def _has_cycle_from(deps, roots):
     return any(x in _closure(deps, x) for x in reach)
 
 
-def run_case(n, edges, requested):
-    """one run of the real TaskRunner; returns list of failed postconditions"""
+def run_case(n, edges, requested, then=None):
+    """one run of the real TaskRunner; returns list of failed postconditions.
+    then = ((a, b), requested2): history variant -- after the first run the dependency a -> b is added to the same
+    project (Target.add_dependency on an already added target) and the same runner runs again; the second run is
+    judged against the property for the new graph"""
     import logging
     from ppci.build import tasks as T
     names = NAMES[:n]
@@ -57,10 +60,24 @@ def run_case(n, edges, requested):
             for d in sorted(deps[x]):
                 t.add_dependency(d)
             proj.add_target(t)
-        req = [names[i] for i in requested]
         runner = T.TaskRunner()
         runner.logger = logging.getLogger("c34-silent")
         runner.logger.disabled = True
+        first = _judge(T, proj, runner, names, deps, [names[i] for i in requested], log)
+        if first or then is None:
+            return first
+        (a, b), requested2 = then
+        proj.get_target(names[a]).add_dependency(names[b])
+        deps[names[a]].add(names[b])
+        del log[:]
+        return ["after a first run and add_dependency(%s -> %s) on the same project: %s" % (names[a], names[b], e)
+                for e in _judge(T, proj, runner, names, deps, [names[i] for i in requested2], log)]
+    finally:
+        T.task_map.pop("__rec__", None)
+
+
+def _judge(T, proj, runner, names, deps, req, log):
+    if True:
         errs = []
         cyc = _has_cycle_from(deps, req)
         try:
@@ -95,8 +112,6 @@ def run_case(n, edges, requested):
                     if got != _closure(deps, x):
                         errs.append("dependencies(%s) == transitive closure %s, got %s" % (x, sorted(_closure(deps, x)), sorted(got)))
         return errs
-    finally:
-        T.task_map.pop("__rec__", None)
 
 
 def _chunk(args):
@@ -116,6 +131,27 @@ def _chunk(args):
     return ev, bad
 
 
+def _chunk_history(args):
+    """run, add one dependency to the live project, run again: every relation over n targets without self loops x every
+    absent edge x every single requested target (first and second run)"""
+    n, lo, hi = args
+    pairs = [(a, b) for a in range(n) for b in range(n) if a != b]
+    ev = 0
+    bad = []
+    for mask in range(lo, hi):
+        edges = [pairs[i] for i in range(len(pairs)) if (mask >> i) & 1]
+        for extra in pairs:
+            if extra in edges:
+                continue
+            for r1 in range(n):
+                for r2 in range(n):
+                    ev += 1
+                    r = run_case(n, edges, (r1,), (extra, (r2,)))
+                    if r and len(bad) < 3:
+                        bad.append((n, edges, [r1], [list(extra), [r2]], r[0]))
+    return ev, bad
+
+
 def bounded(tier_name, rnd):
     plan = [(1, True), (2, True), (3, True), (4, False)] if tier_name == "quick" else [(1, True), (2, True), (3, True), (4, True)]
     jobs = []
@@ -125,10 +161,22 @@ def bounded(tier_name, rnd):
         step = max(total // 32, 1)
         for lo in range(0, total, step):
             jobs.append((n, sl, lo, min(lo + step, total)))
+    hn = 3 if tier_name == "quick" else 4
+    hjobs = []
+    for n in range(2, hn + 1):
+        total = 1 << (n * (n - 1))
+        step = max(total // 32, 1)
+        hjobs += [(n, lo, min(lo + step, total)) for lo in range(0, total, step)]
     with mp.get_context("fork").Pool(16) as pool:
         res = pool.map(_chunk, jobs)
-    ev = sum(r[0] for r in res)
+        hres = pool.map(_chunk_history, hjobs)
+    ev = sum(r[0] for r in res) + sum(r[0] for r in hres)
     vio = []
+    for _, bad in hres:
+        for (n, edges, req, then, what) in bad:
+            if len(vio) < 5:
+                vio.append({"name": "%s [targets=%d deps=%s requested=%s then=%s]" % (what, n, edges, req, then),
+                            "input": {"n": n, "edges": [list(e) for e in edges], "requested": req, "then": then}, "observed": what})
     for _, bad in res:
         for (n, edges, req, what) in bad:
             if len(vio) < 5:
@@ -136,14 +184,16 @@ def bounded(tier_name, rnd):
                             "observed": what})
     return {"evaluations": ev, "distinct_nontrivial": ev, "exhaustive": True,
             "rule": "every dependency relation over 1..%d named targets (%s) x every non-empty set of requested targets (both request orders); each case "
-                    "runs the real TaskRunner.run with a recording task; cases are distinct by construction" % (plan[-1][0], "self-dependencies included up to 3 targets" + ("" if not plan[-1][1] else " and 4")),
+                    "runs the real TaskRunner.run with a recording task; cases are distinct by construction; histories: every relation without self loops over 2..%d targets, "
+                    "one run of a single requested target, every absent dependency added to the live project, a second run of every single target, judged for the new graph" % (plan[-1][0], "self-dependencies included up to 3 targets" + ("" if not plan[-1][1] else " and 4"), hn),
             "bound": "up to %d targets" % plan[-1][0], "violations": vio,
             "samples": [{"targets": 3, "deps": [[0, 1], [0, 2], [1, 2]], "requested": [0], "expect": "c, b, a executed in an order respecting dependencies"},
                         {"targets": 3, "deps": [[0, 1], [1, 2], [2, 0]], "requested": [1], "expect": "TaskError: dependency loop"}]}
 
 
 def replay_bounded(inp):
-    r = run_case(inp["n"], [tuple(e) for e in inp["edges"]], inp["requested"])
+    then = inp.get("then")
+    r = run_case(inp["n"], [tuple(e) for e in inp["edges"]], inp["requested"], (tuple(then[0]), tuple(then[1])) if then else None)
     if r:
         return False, {"case": inp, "failed": r[:3]}
     return True, {"case": inp, "observed": "postcondition holds"}
